@@ -3,6 +3,7 @@
 //                     bit-identical to the undisturbed decode ("exp" records; several records with the same id form one experiment).
 //   mode=chaos (C02/C13): header phase + audio phase with faults on any packet and a seeded call history; safety, budgets, clear-after-reject.
 #include "corpus.hpp"
+#include "hdrmap.hpp"
 #include <set>
 
 
@@ -157,6 +158,18 @@ struct PkRun {
   }
 
   // ---------------------------------------------------------------- chaos mode (C02 / C13)
+  // damage aimed at one header field (chosen by tag first, so that singleton fields weigh as much as the numerous ones): boundary values,
+  // neighbours of the current value, the value of a sibling field (duplicates), one flipped bit, or a random value
+  static void field_fault(std::vector<uint8_t> &data, const std::vector<HdrField> &fields, uint64_t a, uint64_t b) {
+    if (fields.empty()) return;
+    std::map<std::string, std::vector<size_t>> by; for (size_t i = 0; i < fields.size(); i++) by[fields[i].tag].push_back(i);
+    auto it = by.begin(); std::advance(it, (long)(a % by.size())); const std::vector<size_t> &grp = it->second; const HdrField &f = fields[grp[(size_t)((a / 977) % grp.size())]];
+    uint64_t cur = hm_get(data, f), maxv = f.width >= 64 ? ~0ull : ((1ull << f.width) - 1), v;
+    switch (b % 10) { case 0: v = 0; break; case 1: v = maxv; break; case 2: v = maxv - 1; break; case 3: v = 1; break; case 4: v = cur + 1; break; case 5: v = cur - 1; break; case 6: v = 1ull << (f.width - 1); break;
+      case 7: v = hm_get(data, fields[grp[(size_t)((b / 10) % grp.size())]]); break; case 8: v = cur ^ (1ull << ((b / 10) % (uint64_t)f.width)); break; default: { uint64_t x = b * 0x9e3779b97f4a7c15ull; v = splitmix64(x); } }
+    hm_set(data, f, v & maxv); g_stats.inc(std::string("fault.field.") + f.tag);
+  }
+
   void mutate(std::vector<uint8_t> &data, const Rec &f, const std::vector<Pkt> *otherhdr, const std::vector<Pkt> *otheraudio) {
     std::string k = f.s("fault"); if (k.empty()) return; int64_t a = f.i("a"); uint64_t b = f.u("b"); size_t n = data.size();
     if (k == "trunc") { data.resize(n ? (size_t)((uint64_t)a % n) : 0); g_stats.inc("fault.pkt.truncate"); }
@@ -195,7 +208,14 @@ struct PkRun {
       if (k == "hdr") {
         ensure_vi();
         int i = (int)op.i("i"); std::vector<uint8_t> data = (op.i("src", 0) && other ? other->hdr : l->hdr)[(size_t)(i % 3)].data;
-        size_t before = data.size(); mutate(data, op, other ? &other->hdr : nullptr, other ? &other->audio : nullptr); if (data.size() != before || !op.s("fault").empty()) faulted = true;
+        size_t before = data.size();
+        if (op.s("fault") == "field") {
+          int hch = (op.i("src", 0) && other ? other->r.ch : l->r.ch); int hi = i % 3;
+          std::vector<HdrField> fm = hi == 0 ? map_id_header(data) : hi == 1 ? map_comment_header(data) : map_setup_header(data, hch);
+          field_fault(data, fm, op.u("a"), op.u("b")); if (op.has("a2")) { fm = hi == 0 ? map_id_header(data) : hi == 1 ? map_comment_header(data) : map_setup_header(data, hch); field_fault(data, fm, op.u("a2"), op.u("b2")); }
+          g_stats.inc("fault.pkt.header_field");
+        } else mutate(data, op, other ? &other->hdr : nullptr, other ? &other->audio : nullptr);
+        if (data.size() != before || !op.s("fault").empty()) faulted = true;
         hdr_bytes += data.size();
         ogg_packet p; p.packet = data.data(); p.bytes = (long)data.size(); p.b_o_s = op.has("bos") ? (int)op.i("bos") : (i == 0); p.e_o_s = 0; p.granulepos = op.i("gp", 0); p.packetno = i;
         sim_tick("packet");
@@ -217,7 +237,12 @@ struct PkRun {
         const Pkt &src = l->audio[j]; std::vector<uint8_t> data = src.data;
         mutate(data, op, other ? &other->hdr : nullptr, other ? &other->audio : nullptr); if (!op.s("fault").empty()) faulted = true;
         max_pkt = std::max(max_pkt, data.size());
-        ogg_packet p; p.packet = data.data(); p.bytes = (long)data.size(); p.b_o_s = (int)op.i("bos", 0); p.e_o_s = op.has("eos") ? (int)op.i("eos") : src.eos; p.granulepos = op.has("gp") ? op.i("gp") : src.granule; p.packetno = op.has("pno") ? op.i("pno") : src.packetno;
+        ogg_packet p; p.packet = data.data(); p.bytes = (long)data.size(); p.b_o_s = (int)op.i("bos", 0); p.e_o_s = op.has("eos") ? (int)op.i("eos") : src.eos; p.granulepos = op.has("gp") ? op.i("gp") : src.granule;
+        // granule regimes: the whole stream shifted to a huge position ("go"), and lies placed relative to the true position ("gl" base, "gd" delta),
+        // because the decoder's trimming arithmetic works on differences of positions (all arithmetic wraps, as it would on the wire)
+        if (op.has("go") && src.granule != -1 && !op.has("gp")) p.granulepos = (int64_t)((uint64_t)src.granule + (uint64_t)op.i("go"));
+        if (op.has("gl")) { static const int64_t base[] = {0, INT64_MIN, -4294967296LL, 4294967296LL, INT64_MAX - 100000}; int64_t truth = src.granule == -1 ? 0 : src.granule; p.granulepos = (int64_t)((uint64_t)base[op.u("gl") % 5] + (uint64_t)truth + (uint64_t)op.i("go", 0) + (uint64_t)op.i("gd", 0)); g_stats.inc("fault.pkt.granule_lie_relative"); faulted = true; }
+        p.packetno = op.has("pno") ? op.i("pno") : src.packetno;
         sim_tick("packet");
         bool track = op.i("track", 0) != 0;
         int r = track ? vorbis_synthesis_trackonly(&o->vb, &p) : vorbis_synthesis(&o->vb, &p); h.i64(r);
@@ -314,11 +339,14 @@ struct PkGen {
     std::vector<int> order = {0, 1, 2};
     if (u < 0.15) order = {0, 1}; else if (u < 0.22) order = {0}; else if (u < 0.27) order = {}; else if (u < 0.34) order = {0, 2, 1}; else if (u < 0.4) order = {1, 0, 2}; else if (u < 0.46) order = {0, 0, 1, 2}; else if (u < 0.5) order = {0, 1, 1, 2};
     double hfp = g.chance(0.5) ? 0.0 : 0.5;
-    for (int i : order) { Rec &o = op("hdr"); o.set("i", i); fault(o, hfp); if (g.chance(0.05)) o.set("src", 1); if (g.chance(0.05)) o.set("bos", (int64_t)g.below(2));
+    for (int i : order) { Rec &o = op("hdr"); o.set("i", i); fault(o, hfp);
+      if (o.has("fault") && g.chance(0.6)) { o.set("fault", "field").setu("a", g.next() >> 16).setu("b", g.next() >> 16); if (g.chance(0.15)) o.setu("a2", g.next() >> 16).setu("b2", g.next() >> 16); } if (g.chance(0.05)) o.set("src", 1); if (g.chance(0.05)) o.set("bos", (int64_t)g.below(2));
       if (o.has("fault") && g.chance(0.4)) { Rec &o2 = op("hdr"); o2.set("i", i); } }   // retry with the pristine packet
     op("init").set("halfrate", g.chance(0.1) ? 1 : 0);
     if (g.chance(0.1)) op("init");
     int n = (int)g.range(0, thorough ? 300 : 80); size_t j = 0; double pf = g.chance(0.3) ? 0.0 : 0.05 + g.unit() * 0.5;
+    int64_t go = 0; bool regime = g.chance(0.2); if (regime) { static const int64_t offs[] = {2147483648LL, 4294967296LL, 4294967296LL + 12345, 1099511627776LL, 4611686018427387904LL, INT64_MAX - 50000}; go = offs[g.below(6)]; pf *= 0.3; }
+    double glp = regime ? 0.08 : 0.01;
     for (int i = 0; i < n && P > 0; i++) {
       double v = g.unit();
       if (v < 0.03) { op("restart"); continue; }
@@ -329,6 +357,8 @@ struct PkGen {
       if (g.chance(0.15)) o.set("track", 1);
       double dv = g.unit(); o.set("drain", dv < 0.72 ? 1 : dv < 0.82 ? 0 : dv < 0.92 ? 2 : 3);   // (vorbis_synthesis_lapout is not among the calls C02 quantifies over) if (o.i("drain") == 3) o.setu("b", g.next() % 100000);
       if (g.chance(0.04)) { static const int64_t gl[] = {-1, -2, 0, 1, INT64_MAX, INT64_MIN, 123456789012LL}; o.set("gp", gl[g.below(7)]); }
+      if (go) o.set("go", go);
+      if (g.chance(glp)) { static const int64_t dl[] = {0, 1, -1, 4096, -4096, 8192, -8192, 1024, -1024, 64, -64}; o.setu("gl", g.below(5)).set("gd", dl[g.below(11)]); if (g.chance(0.6)) o.set("eos", 1); }
       if (g.chance(0.03)) o.set("eos", (int64_t)g.below(2));
       if (g.chance(0.03)) o.set("pno", (int64_t)g.below(100));
       if (g.chance(0.02)) o.set("bos", 1);
